@@ -1,4 +1,4 @@
-import DendroModel.Model.C19
+import DendroModel.Model.C19Ext
 open DendroModel DendroModel.C19
 
 /-! line protocol of `drv_c19`.
@@ -8,8 +8,13 @@ ops     := concat n M_1 … M_n | export_idx M k i_1 … i_k | export_sub M labe
          | fill M value size|N append | fill_taxa M | pack M value size|N append
          | add|replace|update|extend|extend_new|extend_matrix M O
          | remove|discard|keep M k t_1 … t_k
+         | new_subset M label k i_1 … i_k | sizes M
+         | getitem M t | setitem M t k c_1 … c_k | newseq M t k c_1 … c_k | delitem M t | clear M | items M
+         | concat_streams k { n tok_1 … tok_n }   (each stream = the n tokens of a matrix; unparsable = reader error)
+         | concat_paths k { 0 | 1 n tok_1 … tok_n }   (0 = the path cannot be opened)
 answers := `ok [size] R taxon=c.c.c … S label=i.i …` (rows sorted by taxon: the dict's insertion order is not part of the
-           statement — it only decides `sequence_size` of ragged matrices — and is deliberately not compared) | `ValueError` | `KeyError [R … S …]` | `IndexError` -/
+           statement — it only decides `sequence_size` of ragged matrices — and is deliberately not compared) | `ValueError` | `KeyError [R … S …]` | `IndexError`
+         | `ok len maxsize` (sizes) | `ok row=c.c R … S …` (getitem) | `ok t=c.c t=c.c …` (items, in iteration order) | `ParseError` | `OpenError` -/
 
 abbrev P := StateT (List String) Option
 
@@ -96,6 +101,21 @@ def showRes : Except Err Matrix → String
   | .ok m => "ok " ++ showState m.rows m.subs
   | .error e => showErr e
 
+def showSRes : Except SErr Matrix → String
+  | .ok m => "ok " ++ showState m.rows m.subs
+  | .error (.openError _) => "OpenError"
+  | .error (.parseError _) => "ParseError"
+  | .error (.concat e) => showErr e
+
+/-- a path: `0` cannot be opened, `1 n tok…` opens to a stream of n tokens -/
+def pPath : P (Option (List String)) := do
+  let t ← tok
+  if t == "0" then pure none
+  else if t == "1" then do
+    let toks ← pCounted tok
+    pure (some toks)
+  else failure
+
 /-- run a parser on the whole argument list; leftovers are an error -/
 def whole {α} (p : P α) (ws : List String) : Option α :=
   match p ws with
@@ -128,6 +148,49 @@ def handle (ws : List String) : String :=
   | "pack" :: rest =>
     match whole (do let m ← pMatrix; let v ← pNat; let s ← pSize; let a ← pBool; pure (m, v, s, a)) rest with
     | some (m, v, s, a) => "ok " ++ showState (packRows v s a m.taxa m.rows) m.subs
+    | none => "bad-op"
+  | "new_subset" :: rest =>
+    match whole (do let m ← pMatrix; let l ← pSomeLabel; let idx ← pCounted pNat; pure (m, l, idx)) rest with
+    | some (m, l, idx) => showRes (newSubset m l idx)
+    | none => "bad-op"
+  | "getitem" :: rest =>
+    match whole (do let m ← pMatrix; let t ← pNat; pure (m, t)) rest with
+    | some (m, t) =>
+      match getItem m t with
+      | .ok (m', r) => s!"ok row={dots r} " ++ showState m'.rows m'.subs
+      | .error e => showErr e
+    | none => "bad-op"
+  | "setitem" :: rest =>
+    match whole (do let m ← pMatrix; let t ← pNat; let r ← pCounted pNat; pure (m, t, r)) rest with
+    | some (m, t, r) => showRes (setItem m t r)
+    | none => "bad-op"
+  | "newseq" :: rest =>
+    match whole (do let m ← pMatrix; let t ← pNat; let r ← pCounted pNat; pure (m, t, r)) rest with
+    | some (m, t, r) => showRes (newSequence m t r)
+    | none => "bad-op"
+  | "delitem" :: rest =>
+    match whole (do let m ← pMatrix; let t ← pNat; pure (m, t)) rest with
+    | some (m, t) => showRes (delItem m t)
+    | none => "bad-op"
+  | "clear" :: rest =>
+    match whole pMatrix rest with
+    | some m => showRes (.ok (clearRows m))
+    | none => "bad-op"
+  | "items" :: rest =>
+    match whole pMatrix rest with
+    | some m => " ".intercalate ("ok" :: (itemsOf m).map (fun kv => s!"{kv.1}={dots kv.2}"))
+    | none => "bad-op"
+  | "sizes" :: rest =>
+    match whole pMatrix rest with
+    | some m => s!"ok {matLen m} {maxSeqSize m}"
+    | none => "bad-op"
+  | "concat_streams" :: rest =>
+    match whole (pCounted (pCounted tok)) rest with
+    | some streams => showSRes (concatFromStreams (whole pMatrix) streams)
+    | none => "bad-op"
+  | "concat_paths" :: rest =>
+    match whole (pCounted pPath) rest with
+    | some paths => showSRes (concatFromPaths (fun p => p) (whole pMatrix) paths)
     | none => "bad-op"
   | [] => "bad-op"
   | op :: rest =>
